@@ -82,6 +82,72 @@ def cases(seed):
                 for b in itertools.product(rounds, repeat=2):
                     yield recursive, toks, [list(a), list(b)]
 
+
+# ------------------------------------------------------------------ whole builds: real `bob dev -j N [-k]` on generated DAGs
+def build_level(seed, n_cases):
+    """every step script appends a token to a log: no workspace runs twice in one invocation, a step runs only after its
+    dependencies succeeded, with keep-going only dependents of the failing package are skipped, never more scripts run
+    at once than jobs, and the results do not depend on the job count"""
+    import tempfile, shutil, time
+    sys.path.insert(0, os.path.dirname(os.path.dirname(os.path.abspath(__file__))))
+    from replay import projlib as P
+    rnd = random.Random(seed)
+    for ci in range(n_cases):
+        base = tempfile.mkdtemp(prefix='c06b-'); log = os.path.join(base, 'log')
+        try:
+            n = rnd.randint(3, 6); names = ['p%d' % i for i in range(n)]
+            deps = {nm: [names[j] for j in range(i + 1, n) if rnd.random() < .5] for i, nm in enumerate(names)}
+            if ci == 0: names = ['p0', 'b', 'c', 'd', 'e']; deps = {'p0': ['b', 'c', 'e'], 'b': ['d'], 'c': ['d'], 'd': [], 'e': []}      # diamond over a failing package
+            fail = 'd' if ci == 0 else (rnd.choice(names[1:]) if rnd.random() < .6 else None)
+            R = {}
+            for nm in names:
+                R[nm] = {'buildScript': 'echo "start %s $$" >> %s\nsleep 0.%d\necho "end %s $$" >> %s\n%s' % (nm, log, rnd.randint(0, 3), nm, log, 'exit 1\n' if nm == fail else 'echo ok > out.txt\n'),
+                         'packageScript': 'cp "$1"/out.txt . 2>/dev/null || true\n'}
+                if deps[nm]: R[nm]['depends'] = deps[nm]
+            R[names[0]]['root'] = True
+            results = {}
+            for jobs in (1, 2, 4):
+                for keep in (False, True):
+                    p = P.Project(root=os.path.join(base, 'j%d%s' % (jobs, 'k' if keep else '')))
+                    p.write({'recipes': R, 'config': {}})
+                    open(log, 'w').close()
+                    rc, out = p.bob('dev', names[0], '-j', str(jobs), *(['-k'] if keep else []))
+                    lines = [l.split() for l in open(log).read().split('\n') if l]
+                    desc = {'recipes': deps, 'failing': fail, 'jobs': jobs, 'keep_going': keep}
+                    starts = [l[1] for l in lines if l[0] == 'start']
+                    dup = sorted({x for x in starts if starts.count(x) > 1})
+                    if dup: return {'kind': 'workspace-executed-twice-in-one-invocation', 'packages': dup, **desc}
+                    running = 0; peak = 0
+                    for l in lines:
+                        running += 1 if l[0] == 'start' else -1; peak = max(peak, running)
+                    if peak > jobs: return {'kind': 'more-scripts-running-than-jobs', 'peak': peak, **desc}
+                    ended = set(); bad = None
+                    for l in lines:
+                        if l[0] == 'start':
+                            missing = [d for d in deps[l[1]] if d not in ended or d == fail]
+                            if missing: bad = (l[1], missing)
+                        else: ended.add(l[1])
+                    if bad: return {'kind': 'step-started-before-its-dependencies-succeeded', 'package': bad[0], 'dependencies': bad[1], **desc}
+                    def reach(x, seen=None):
+                        seen = seen if seen is not None else set()
+                        for d in deps[x]:
+                            if d not in seen: seen.add(d); reach(d, seen)
+                        return seen
+                    if fail is None and rc != 0: return {'kind': 'build-failed-without-a-failing-step', 'output': out[-300:], **desc}
+                    if fail is not None and fail in reach(names[0]) | {names[0]}:
+                        if rc == 0: return {'kind': 'failure-not-reported', **desc}
+                        if keep:
+                            must = [x for x in (reach(names[0]) | {names[0]}) if x != fail and fail not in reach(x)]
+                            lost = [x for x in must if x not in starts]
+                            if lost: return {'kind': 'keep-going-skipped-a-package-that-does-not-depend-on-the-failure', 'packages': sorted(lost), **desc}
+                    results[(jobs, keep)] = (rc == 0, sorted(set(starts)) if (keep or fail is None) else None)
+                    shutil.rmtree(p.dir, ignore_errors=True)
+            ks = [v for (j, k), v in results.items() if k]
+            if any(v != ks[0] for v in ks): return {'kind': 'result-depends-on-the-job-count', 'recipes': deps, 'failing': fail, 'observed': {str(k): v for k, v in results.items()}}
+        finally:
+            shutil.rmtree(base, ignore_errors=True)
+    return None
+
 def replay(rep):
     seed = int(os.environ.get('VERIF_SEED', '0') or 0)
     tried = 0
@@ -93,4 +159,8 @@ def replay(rep):
             return {'reproduced': True, 'tried': tried,
                     'witness': {'recursive': recursive, 'tokens_in_pipe': toks, 'task_scripts(delay,hold)': scripts, 'foreign(take,return_delays)': ext, 'observed': v}}
         if tried > 15000: break
-    return {'reproduced': False, 'tried': tried, 'detail': 'no schedule up to the search bound violates a monitored clause'}
+    nb = 6 if os.environ.get('VERIF_TIER') == 'thorough' else 2
+    w = build_level(seed, nb)
+    if w is not None: return {'reproduced': True, 'tried': tried + 1, 'witness': w}
+    return {'reproduced': False, 'tried': tried + nb * 6, 'bound': 'semaphore schedules up to the stated search bound + %d generated DAGs (3-6 packages, optional failing step) built with -j 1/2/4, with and without -k' % nb,
+            'detail': 'no schedule violates a monitored clause; no workspace ran twice, dependencies finished first, failures stayed confined, job limit respected'}
